@@ -143,6 +143,16 @@ def fill_scales_for_dyadic_pyramid(info, target_chunk_size=64,
     max_downscale_level = max(max_downscale_level, 1)
     info["scales"] = [downscale_info(scale_level)
                       for scale_level in range(max_downscale_level)]
+    # The key is derived from the smallest resolution of each scale, which does
+    # not always double between scales of an anisotropic volume: fall back to
+    # finer units until the keys are distinct.
+    units = list(LENGTH_UNITS)
+    for key_unit in units[units.index(key_unit) + 1:]:
+        if (len({scale_info["key"] for scale_info in info["scales"]})
+                == len(info["scales"])):
+            break
+        info["scales"] = [downscale_info(scale_level)
+                          for scale_level in range(max_downscale_level)]
     return info
 
 
